@@ -77,6 +77,24 @@ BAD_DEFINITIONS = [
     ('repeated argument', 'definition: forall X (d(X, X) <-> q(X)).'),
     ('sort mismatch in argument', 'definition: forall X$i (d(X) <-> q(X$i)).'),
 ]
+# direction annotations must not open a loophole: a predicate defined by an earlier outline entry (in whatever direction)
+# is not fresh any more, and a body may only mention predicates that are already known
+DIRS = ['', '(forward)', '(backward)']
+BAD_DIRECTION_MIXES = []
+for d1 in DIRS:
+    for d2 in DIRS:
+        BAD_DIRECTION_MIXES.append(('defined twice %s then %s' % (d1 or '(universal)', d2 or '(universal)'),
+                                    'definition%s: forall X (d(X) <-> q(X)). definition%s: forall X (d(X) <-> not q(X)).' % (d1, d2)))
+for d1, d2, d3 in (('(forward)', '', '(backward)'), ('(backward)', '', '(forward)'), ('', '(forward)', '(backward)'),
+                   ('(forward)', '(backward)', '')):
+    BAD_DIRECTION_MIXES.append(('cycle through directions %s %s %s' % (d1, d2, d3),
+                                'definition%s: forall X (a(X) <-> p(X)). definition%s: forall X (b(X) <-> not a(X)). '
+                                'definition%s: forall X (a(X) <-> b(X)).' % (d1, d2, d3)))
+GOOD_DIRECTION_MIXES = [
+    ('chain across directions', 'definition(forward): forall X (a(X) <-> p(X)). definition(backward): forall X (b(X) <-> a(X) or q(X)). '
+     'definition: forall X (c(X) <-> b(X) and not a(X)).'),
+]
+
 BAD_AFTER = [
     ('later-defined predicate', 'definition: forall X (e(X) <-> d(X)). definition: forall X (d(X) <-> q(X)).'),
     ('defined twice', 'definition: forall X (d(X) <-> q(X)). definition: forall X (d(X) <-> p(X)).'),
@@ -110,7 +128,10 @@ def generate(tier, seed):
     for fam, po in outlines:
         for t in (BASE_TASKS if tier == 'thorough' else BASE_TASKS[:3] if fam == 'single' else [rnd.choice(BASE_TASKS)]):
             items.append({'family': 'outline-' + fam, 'task': t, 'outline': po, 'label': '%s + %s' % (t[0], po[:160])})
-    for name, po in BAD_DEFINITIONS + BAD_AFTER:
+    for name, po in GOOD_DIRECTION_MIXES:
+        items.append({'family': 'definition-acceptance', 'task': BASE_TASKS[0], 'outline': po, 'expect_refused': None,
+                      'label': 'good definitions (%s): %s' % (name, po)})
+    for name, po in BAD_DEFINITIONS + BAD_AFTER + BAD_DIRECTION_MIXES:
         items.append({'family': 'definition-acceptance', 'task': BASE_TASKS[0], 'outline': po, 'expect_refused': name,
                       'label': 'bad definition (%s): %s' % (name, po)})
     for po in DEFINITIONS:
